@@ -355,7 +355,12 @@ func (r *Runner) stmtSync(ctx context.Context, st *syntax.Stmt) {
 		}
 	}
 	if r.exit.ok() && st.Cmd != nil {
+		// A negated command does not trigger errexit,
+		// and neither does any command nested inside it.
+		oldNoErrExit := r.noErrExit
+		r.noErrExit = r.noErrExit || st.Negated
 		r.cmd(ctx, st.Cmd)
+		r.noErrExit = oldNoErrExit
 	}
 	if st.Negated {
 		if r.exit.ok() {
